@@ -664,6 +664,55 @@ def fast_path_owner(ctx, res):
                            and c.func.attr == "set_validate"
                            for c in ast.walk(x)) for x in ast.walk(fn)):
                 continue        # the nested def is analysed on its own
+            # freshness: a descriptor kept in a local must have been read
+            # after the last recomputation (`handler.set_validate()` /
+            # `init_fast_validate()`) that precedes its installation
+            recompute_names = {"init_fast_validate"}
+            for a_ in ast.walk(fn):
+                if isinstance(a_, ast.Assign) and len(a_.targets) == 1 \
+                        and isinstance(a_.targets[0], ast.Name) \
+                        and "set_validate" in norm(a_.value) \
+                        and not isinstance(a_.value, ast.Call) \
+                        or (isinstance(a_, ast.Assign) and len(a_.targets) == 1
+                            and isinstance(a_.targets[0], ast.Name)
+                            and isinstance(a_.value, ast.Call)
+                            and norm(a_.value.func) == "getattr"
+                            and len(a_.value.args) >= 2
+                            and norm(a_.value.args[1]) == "'set_validate'"):
+                    recompute_names.add(a_.targets[0].id)
+            recomputes = [c.lineno for c in ast.walk(fn) if isinstance(c, ast.Call)
+                          and not c.args and not c.keywords and (
+                              (isinstance(c.func, ast.Attribute)
+                               and c.func.attr in ("set_validate",
+                                                   "init_fast_validate"))
+                              or (isinstance(c.func, ast.Name)
+                                  and c.func.id in recompute_names))]
+            for c in ast.walk(fn):
+                if not (isinstance(c, ast.Call) and isinstance(c.func, ast.Attribute)
+                        and c.func.attr == "set_validate" and len(c.args) == 1
+                        and isinstance(c.args[0], ast.Name)):
+                    continue
+                v = c.args[0].id
+                defs_ = [a_ for a_ in ast.walk(fn) if isinstance(a_, ast.Assign)
+                         and any(isinstance(t, ast.Name) and t.id == v
+                                 for t in a_.targets)
+                         and "fast_validate" in norm(a_.value)]
+                if not defs_:
+                    continue
+                n += 1
+                key = f"{rel.split('/')[-1]}:{qual}:set_validate"
+                res.instance(key + ":local", f"{rel}:{c.lineno}")
+                stale = [(d, r) for d in defs_ for r in recomputes
+                         if d.lineno < r < c.lineno]
+                res.oblige(not stale, key + ":stale-descriptor",
+                           f"{rel}:{c.lineno}",
+                           f"`{norm(c)}` installs a descriptor that was read "
+                           f"(line {stale[0][0].lineno if stale else 0}) "
+                           f"*before* the handler recomputed it (line "
+                           f"{stale[0][1] if stale else 0}): the CTrait keeps "
+                           f"the compiled validator from before the class "
+                           f"was resolved, and rejects what "
+                           f"handler.validate accepts")
             bad = {}
             seen = set()
             for sites, eq, ne in _own_terms(fn):
